@@ -17,7 +17,10 @@ MANIFEST = {
                  "must reproduce every call, argument and result bit-for-bit; callee contracts "
                  "assumed by the theorems are asserted on every recorded answer",
     "findings": "driver-max-nsteps-exhausted (FieldDriver keeps going after find_next_chord / "
-                "one_good_step ran out of max_nsteps); zhelix-off-axis, zhelix-negative-helicity-z, "
+                "one_good_step ran out of max_nsteps: returned arc LONGER than the reported step; the "
+                "opposite direction has its own key driver-step-exceeds-integrated-arc); "
+                "helix-gyroradius-below-minimum-step (integration steps floored at minimum_step); "
+                "zhelix-off-axis, zhelix-negative-helicity-z, "
                 "zhelix-diry-zero (ZHelixStepper exact only for a helix about the z axis through the "
                 "origin with its 'positive helicity')",
     "text": "Model/FieldProp.lean models the propagation loop (chord, update_length, four branches, "
@@ -26,7 +29,8 @@ MANIFEST = {
             "ZHelixStepper closed form, generic in the number type. Proved at ℝ under the stated "
             "driver/geometry contracts: explicit iteration bound, 0 < distance <= step, boundary "
             "flag <=> last geometry move is move_to_boundary, looping <=> substep budget spent short "
-            "of the step, |p| unchanged and final direction = unit(momentum), driver substep in "
+            "of the step (looping => distance < step; budget spent and not looping => distance = "
+            "step), |p| unchanged and final direction = unit(momentum), driver substep in "
             "(0, step], ZHelix end point on the analytic helix (with the hypotheses the code needs). "
             "Run at Float against the real templates through recording wrappers.",
     "design_ref": "DESIGN.md §6 C08",
@@ -491,6 +495,26 @@ def driver_arcs(seg):
     return out
 
 
+def zh_off_axis(pos, mom, meta):
+    """relative distance of the z axis through the origin from the axis of the helix through
+    (pos, mom) in the field (0, 0, Bz): 0 when ZHelixStepper's rotation about the origin is right"""
+    pn = norm(mom)
+    bz = meta["B"][2]
+    if pn == 0 or bz == 0:
+        return 0.0
+    d = [c / pn for c in mom]
+    sint = math.hypot(d[0], d[1])
+    rad = abs((meta["p"]) / (C_R * meta["q"] * bz / TESLA))
+    rperp = rad * sint
+    if rperp == 0:
+        return 0.0
+    # centre of gyration = pos + rperp * (dir_perp rotated by -sign(q Bz) * 90 deg)
+    sg = 1.0 if meta["q"] * bz > 0 else -1.0
+    ux, uy = d[0] / sint, d[1] / sint
+    cx, cy = pos[0] + sg * rperp * uy, pos[1] - sg * rperp * ux
+    return math.hypot(cx, cy) / rperp
+
+
 class Stats:
     def __init__(self):
         self.n = {}
@@ -585,14 +609,28 @@ def check_segment(seg, meta, st, fails, line, xc=None):
                 fails.append(("contract:driver-substep-range", "driver.advance returned a substep outside "
                               "(0, requested]", {"requested": rem, "returned": sub}))
             chord_len = dist(cur_adv[1:4], r[1:4])
-            if sub > 0 and not tainted:
+            # rounding floor of a chord computed from two positions of magnitude |pos|
+            ulp_pos = 8 * 2.220446049250313e-16 * max(norm(cur_adv[1:4]), norm(r[1:4]))
+            if sub > 0 and not tainted and chord_len > sub and chord_len - sub <= ulp_pos:
+                st.inc("chord_excess_within_position_rounding")
+            elif sub > 0 and not tainted:
                 st.max("max_chord_over_substep_minus_1", chord_len / sub - 1.0)
                 st.max("max_chord_excess_over_eps_rel_max", (chord_len / sub - 1.0) / eps_rel)
                 if chord_len > sub * (1 + 1e-9) + 1e-300:
                     st.inc("chord_longer_than_substep")
                     # the embedded error estimate is not a bound (it underestimates on the
                     # interpolated RZ map and for steps of order one radian): kappa = 1 + 25 eps
-                    if chord_len > sub * (1 + 25 * eps_rel):
+                    if (chord_len > sub * (1 + 25 * eps_rel) and meta["stp"] == "zh"
+                            and zh_off_axis(cur_adv[1:4], cur_adv[4:7], meta) > 1e-6):
+                        # ZHelixStepper rotates about the origin: once a boundary landing (within
+                        # delta_intersection) has moved the track off its helix the lever arm is
+                        # wrong -- the known `zhelix-off-axis` defect, not a driver contract breach
+                        st.inc("zhelix_off_axis_after_boundary_snap")
+                        fails.append(("zhelix-off-axis", "ZHelixStepper (rotation about the origin) "
+                                      "after a boundary landing displaced the track from its helix by "
+                                      "up to delta_intersection: chord longer than the curved substep",
+                                      {"substep": sub, "chord": chord_len, "delta_intersection": delta_int}))
+                    elif chord_len > sub * (1 + 25 * eps_rel):
                         fails.append(("contract:driver-chord-le-substep", "chord between start and end of "
                                       "a substep exceeds the curved substep length beyond the "
                                       "integration tolerance", {"substep": sub, "chord": chord_len}))
@@ -722,6 +760,12 @@ def check_segment(seg, meta, st, fails, line, xc=None):
                           "the analytic helix by more than the configured tolerances",
                           {"residual": resid, "tol": tol, "distance": distance, "radius": rad,
                            "minimum_step": min_sub, "end": fin[0][:3], "helix": pt}))
+        elif resid > tol and meta["stp"] == "zh" and (
+                any(t == "->mtb" for t, _ in ev) or zh_off_axis(g0[:3], g0[3:6], meta) > 1e-6):
+            st.inc("zhelix_off_axis_after_boundary_snap")
+            fails.append(("zhelix-off-axis", "ZHelixStepper (rotation about the origin) leaves the "
+                          "analytic helix once a boundary landing has displaced the start point",
+                          {"residual": resid, "tol": tol, "distance": distance, "radius": rad}))
         elif resid > tol:
             fails.append(("oracle:helix-residual", "end point farther from the analytic helix than "
                           "the configured chord/intersection/integration tolerances allow",
@@ -1045,6 +1089,17 @@ def run(ctx):
         f"{st.mx.get('max_rel_momentum_change_per_substep_over_eps_rel_max', 0):.3g} x epsilon_rel_max "
         "per driver answer in this run (measured, never fed back into the particle)",
         "RZ-map field only through the bundled cms-tiny map on simple-cms; no Geant4/VecGeom geometries",
+        "helix oracle: tolerance = min(old, 4*eps_rel_max*distance*(2+#integration steps) + "
+        "2*delta_intersection + (delta_chord + dchord_tol only for a boundary landing or while the "
+        "gyroradius is below 100*minimum_step)); "
+        f"{st.n.get('helix_cases_tiny_radius_default_options', 0)} helix comparisons this run had a "
+        "gyroradius below 3e-3 cm with the DEFAULT driver options",
+        "driver arc oracle: the arc integrated into every returned driver state (chained recorded "
+        "stepper calls) must equal the returned step; longer arc = known max_nsteps finding, "
+        "shorter arc = key driver-step-exceeds-integrated-arc",
+        f"substep-budget cases: {st.n.get('budget_spent_step_completed', 0)} propagations completed "
+        f"their step with exactly the last allowed substep, {st.n.get('budget_spent_looping', 0)} "
+        "spent the budget short of the step (probe run + steps of (max_substeps-1+f) substeps)",
     ]
     n_seg = st.n.get("segments", 0)
     ctx.coverage.update({
